@@ -41,6 +41,8 @@ def run_one(plan, seed, choices=None, max_steps=6000):
            "timeouts": sum(1 for c in r.choices if c[0] == "timeout" and c[2] != "sleep")}
     if an:
         rec["choices"] = [list(c) for c in r.choices]
+    if plan["family"] == "reuse":
+        rec["gets"] = r.env.notes.get("gets", [])
     return rec
 
 
